@@ -12,3 +12,7 @@ def run(ctx):
     ctx.prove(MODULE, THEOREMS, extra_targets=DRIVERS)
     ctx.assumptions += chan.ASSUMPTIONS
     chan.explore(ctx, chan.C01_ORACLES)
+
+
+def replay(ctx, path):
+    return chan.replay(ctx, path, chan.C01_ORACLES)
